@@ -54,9 +54,9 @@ pub fn poll(&mut self, cx: &mut Context, env: &mut FEnv) -> (r: Poll<()>)
     requires wf_flag(&old(self).job_gone, old(env)), wf_flag(&old(self).control_done, old(env)),
     ensures
         // a ticket is ready exactly when its control is done or its job is gone
-        r is Ready <==> (old(env).set@[fid(&old(self).job_gone)] || old(env).set@[fid(&old(self).control_done)]), // OBL:C07.ticket.ready_iff_control_done_or_job_gone
+        r is Ready <==> (old(env).set@[fid(&old(self).job_gone)] || old(env).set@[fid(&old(self).control_done)]), // OBL:C07+C09.ticket.ready_iff_control_done_or_job_gone
         // a task told to wait is registered on BOTH flags: the end of the job wakes it as well as the completion of the control
         r is Pending ==> reg_contains(final(env).registered@[fid(&old(self).job_gone)], old(cx).task)
-            && reg_contains(final(env).registered@[fid(&old(self).control_done)], old(cx).task), // OBL:C07.ticket.pending_poll_waits_on_both_flags
+            && reg_contains(final(env).registered@[fid(&old(self).control_done)], old(cx).task), // OBL:C07+C09.ticket.pending_poll_waits_on_both_flags
         final(env).set == old(env).set, final(env).woken == old(env).woken,
 //@ end
